@@ -208,7 +208,14 @@ type world struct {
 	remoteArrived   bool // a remote pack/snapshot reached D after >= 1 local update
 	failedSinceGood bool // a failing update happened and no valid D update succeeded since
 	failedSteps     map[int]bool
-	cur             int
+	// f6Seqs: clientSeq of D's changes made by an undo/redo whose entry held
+	// an Object.Set (trigger of known finding F6 when such a change is
+	// applied as a remote change).
+	f6Seqs map[uint32]bool
+	cur    int
+	// epilogue: the fixed closing steps are running (they do not count for
+	// the non-trivial rule).
+	epilogue bool
 	twinDeviated    bool
 }
 
@@ -360,7 +367,7 @@ func (w *world) noteRemote(n int) {
 
 func (w *world) noteLocal() {
 	w.dUpdates++
-	if w.remoteArrived {
+	if w.remoteArrived && !w.epilogue {
 		w.ev["remote_between_local"]++
 		w.remoteArrived = false
 	}
@@ -715,7 +722,11 @@ func (w *world) failingUpdate(s Step) (*kit.Failure, string) {
 		w.twinDeviated = true
 	}
 	w.ev["fail_"+mode]++
+	w.ev[fmt.Sprintf("fail_after_%d_edits", len(descs))]++
 	if mutatedCount > 0 {
+		for _, e := range edits {
+			w.ev["fail_dirty_op_"+e.Op]++
+		}
 		w.ev["fail_dirty"]++
 		w.ev["fail_dirty_"+mode]++
 	} else {
@@ -912,12 +923,17 @@ func (w *world) step(i int, s Step) (*kit.Failure, string) {
 			w.logf("D %s (nothing)", s.Op)
 			return nil, ""
 		}
+		_, f6 := prog.GuardF6(w.D, prog.Step{Op: s.Op})
+		seqBefore := lastSeq(w.D, w.D.CreateChangePack().Changes)
 		err, pan := guarded(func() error {
 			if s.Op == "undo" {
 				return w.D.Undo()
 			}
 			return w.D.Redo()
 		})
+		if seqAfter := lastSeq(w.D, w.D.CreateChangePack().Changes); f6 != "" && seqAfter != seqBefore {
+			w.f6Seqs[seqAfter] = true
+		}
 		w.logf("D %s -> err=%v", s.Op, err)
 		if err != nil || pan != nil {
 			w.logf("  -> panic=%v", pan)
@@ -1000,6 +1016,20 @@ func (w *world) sync(gc bool) (*kit.Failure, string) {
 func (w *world) snapshot(a int) (*kit.Failure, string) {
 	dp := w.D.CreateChangePack().Changes
 	m := a % (len(dp) + 1)
+	if !w.opts.noExcl {
+		// F6 (upstream-known): an undo/redo change that restores an object
+		// member under its original identity leaves a stale GC registration
+		// on every root that applies it as a REMOTE change. A snapshot makes
+		// D replay its own pending changes that way, so such a change is
+		// pushed before the snapshot instead of being replayed on top of it.
+		for _, c := range dp[m:] {
+			if w.f6Seqs[c.ClientSeq()] {
+				m = len(dp)
+				w.ev["excluded:F6"]++
+				break
+			}
+		}
+	}
 	pushed := dp[:m]
 	hadHistory := w.D.CanUndo() || w.D.CanRedo()
 	err, pan := guarded(func() error {
@@ -1045,7 +1075,7 @@ func (w *world) snapshot(a int) (*kit.Failure, string) {
 }
 
 func newWorld(opts runOpts) (*world, error) {
-	w := &world{ev: map[string]int{}, opts: opts, failedSteps: map[int]bool{}}
+	w := &world{ev: map[string]int{}, opts: opts, failedSteps: map[int]bool{}, f6Seqs: map[uint32]bool{}}
 	a1, err := time.ActorIDFromHex("0000000000000000000000d1")
 	if err != nil {
 		return nil, err
@@ -1081,11 +1111,19 @@ func run(c Case, opts runOpts) outcome {
 		o := outcome{Fail: f, Hist: w.hist, Ev: w.ev, Abort: abort, FailedSteps: w.failedSteps, TwinDeviated: w.twinDeviated}
 		if abort != "" {
 			w.ev["abort_"+abort]++
-			// Information only: a step outside the property failed (a pack
-			// could not be applied, undo failed, ...); the replica is broken
-			// and the case ends here.
-			if cf := w.checkCloneEqRoot("abort"); cf != nil {
-				w.ev["abort_left_clone_ne_root"]++
+			// A step other than Update failed (a pack could not be applied,
+			// Undo returned an error, ...): the case ends here. F22: an
+			// Undo/Redo that fails half-way keeps the half-executed clone, so
+			// with exclusions on the clone==root oracle is not evaluated after
+			// a failed Undo/Redo (trigger: Undo/Redo returned an error).
+			if abort == "undo_failed" || abort == "redo_failed" {
+				if w.opts.noExcl {
+					if cf := w.checkCloneEqRoot("the failed " + abort[:4]); cf != nil && f == nil {
+						o.Fail = cf
+					}
+				} else {
+					w.ev["excluded:F22"]++
+				}
 			}
 		}
 		o.NonTrivial = w.ev["fail_dirty"] > 0 || w.ev["remote_between_local"] > 0
@@ -1108,6 +1146,7 @@ func run(c Case, opts runOpts) outcome {
 		}
 	}
 	// Epilogue: one more valid update, then exchange everything.
+	w.epilogue = true
 	if f := w.probe(); f != nil {
 		return finish(f, "")
 	}
